@@ -43,40 +43,10 @@ Proof.
   destruct (e_loaded e) eqn:El; [|discriminate]. intros _. exists e. auto.
 Qed.
 
-(* ---------------------------------------------------------------- the state a handshake's lookup sees *)
-Definition new_entry (cfg : rcfg) (st : rstate) (id : ident) (c : cert) : entry :=
-  let from_disk := match r_storage cfg with Disk => lookup id (disk st) | Memory => None end in
-  {| e_locs := id; e_list := option_map fst from_disk;
-     e_loaded := match from_disk with Some _ => true | None => false end;
-     e_chain := c_chain c;
-     e_signer := match from_disk with Some (_, s) => s | None => None end |}.
-
-Definition added_state (cfg : rcfg) (st : rstate) (id : ident) (c : cert) : rstate :=
-  match lookup id (entries st) with
-  | Some _ => st
-  | None => {| entries := entries st ++ [(id, new_entry cfg st id c)]; disk := disk st |}
-  end.
-
-Definition loaded_state (cfg : rcfg) (ev : env) (st1 : rstate) (id : ident) (c : cert) : rstate :=
-  match r_fetch cfg, lookup id (entries st1) with
-  | Active, Some e =>
-    if e_loaded e then st1
-    else let '(e', r) := intake cfg ev FirstLoad id e (c_chain c) NoFault in
-         {| entries := update id e' (entries st1); disk := persist cfg id r (disk st1) |}
-  | _, _ => st1
-  end.
-
-Definition lookup_state (cfg : rcfg) (ev : env) (st : rstate) (c : cert) : rstate :=
-  match c_cdps c, http_locs c with
-  | [], _ | _, [] => st
-  | _, id => loaded_state cfg ev (added_state cfg st id c) id c
-  end.
-
 Lemma handshake_verdict cfg ev st c : snd (handshake cfg ev st c) = is_revoked cfg (lookup_state cfg ev st c) c.
 Proof.
-  unfold handshake, lookup_state, loaded_state, added_state, new_entry.
-  destruct (c_cdps c) as [|cd cds]; [reflexivity|]. destruct (http_locs c) as [|h hs]; [reflexivity|].
-  destruct (lookup (h :: hs) (entries st)); reflexivity.
+  unfold handshake, lookup_state.
+  destruct (c_cdps c) as [|cd cds]; [reflexivity|]. destruct (http_locs c) as [|h hs]; reflexivity.
 Qed.
 
 Lemma lookup_app_some {A} id (l l' : list (ident * A)) v : lookup id l = Some v -> lookup id (l ++ l') = Some v.
@@ -110,31 +80,7 @@ Qed.
 
 (* the lookup state of a reachable state satisfies the invariant *)
 Lemma lookup_state_inv cfg ev st c : Inv cfg st -> Inv cfg (lookup_state cfg ev st c).
-Proof.
-  intros H. unfold lookup_state.
-  destruct (c_cdps c) as [|cd cds]; [exact H|]. destruct (http_locs c) as [|h hs]; [exact H|].
-  set (id := h :: hs).
-  assert (H1 : Inv cfg (added_state cfg st id c)).
-  { unfold added_state. destruct (lookup id (entries st)); [exact H|].
-    destruct H as [He Hd]. split; simpl; [|exact Hd].
-    apply Forall_app. split; [exact He|]. constructor; [|constructor]. unfold new_entry. simpl.
-    destruct (r_storage cfg); simpl.
-    - split; simpl; [split; [discriminate|intros Hn; exfalso; apply Hn; reflexivity]|discriminate].
-    - destruct (lookup id (disk st)) as [[l sg]|] eqn:Ed; simpl.
-      + split; [split; [discriminate|reflexivity]|]. intros l0 [= <-].
-        apply lookup_in in Ed. rewrite Forall_forall in Hd. apply (Hd _ Ed).
-      + split; [split; [discriminate|intros Hn; exfalso; apply Hn; reflexivity]|discriminate]. }
-  unfold loaded_state. destruct (r_fetch cfg); [|exact H1].
-  destruct (lookup id (entries (added_state cfg st id c))) as [e|] eqn:El; [|exact H1].
-  destruct (e_loaded e); [exact H1|].
-  pose proof (inv_lookup _ _ _ _ H1 El) as Hok.
-  pose proof (intake_entry_ok cfg ev FirstLoad id e (c_chain c) NoFault Hok) as Hi.
-  pose proof (intake_result_ok cfg ev FirstLoad id e (c_chain c) NoFault) as Hr.
-  destruct (intake cfg ev FirstLoad id e (c_chain c) NoFault) as [e' r]. simpl in *.
-  destruct H1 as [He Hd]. split; simpl.
-  - apply update_forall; [exact He|]. intros k _. exact Hi.
-  - apply persist_ok; [exact Hd|]. intros l sg ->. eapply Hr. reflexivity.
-Qed.
+Proof. apply (RepoProofs.lookup_state_inv D_cfg D_cfg_accepts D_cfg_adopt). Qed.
 
 (* C11: a verdict "revoked" comes from an accepted list in force that lists issuer and serial *)
 Lemma handshake_precise cfg ev st c :
@@ -159,7 +105,7 @@ Lemma handshake_strict cfg ev st c :
 Proof.
   intros HI Hs Hc H. rewrite handshake_verdict in H.
   destruct (is_revoked_strict _ _ _ Hs Hc H) as (e & Hlk & Hl).
-  pose proof (lookup_state_inv cfg ev st c HI) as HI'. pose proof (inv_lookup _ _ _ _ HI' Hlk) as [Hiff Hok].
+  pose proof (lookup_state_inv cfg ev st c HI) as HI'. pose proof (inv_lookup _ _ _ _ _ HI' Hlk) as [Hiff Hok].
   destruct (e_list e) as [l|] eqn:El; [|exfalso; apply Hiff in Hl; apply Hl; reflexivity].
   exists e, l. auto.
 Qed.
@@ -202,8 +148,8 @@ Lemma intake_all_or_nothing cfg ev p id e avail f :
   let e' := fst (intake cfg ev p id e avail f) in
   e' = e \/ (exists l loc, ev loc = Serve l /\ e_list e' = Some l /\ e_loaded e' = true /\ list_ok cfg l).
 Proof.
-  pose proof (intake_spec cfg ev p id e avail f) as H. destruct (intake cfg ev p id e avail f) as [e' r]. simpl.
-  destruct H as [[_ ->]|(l & sg & loc & _ & Hs & Hok & ->)]; [left; reflexivity|right; exists l, loc; auto].
+  pose proof (intake_spec D_cfg D_cfg_accepts cfg ev p id e avail f) as H. destruct (intake cfg ev p id e avail f) as [e' r]. simpl.
+  destruct H as [[_ ->]|(l & sg & loc & _ & Hs & Hok & _ & ->)]; [left; reflexivity|right; exists l, loc; auto].
 Qed.
 
 (* a later successful refresh still takes effect *)
@@ -255,6 +201,32 @@ Proof.
     destruct (Hok l Hl) as [Hp Hs]. auto.
   - intros id l sg Hin. rewrite Forall_forall in Hd. destruct (Hd _ Hin) as [Hp Hs]. auto.
 Qed.
+
+(* the same when the configuration changes between restarts: whatever earlier configurations accepted and
+   left on disk, under 'verify' nothing unverified is in force afterwards *)
+Lemma verify_after_reconfiguration segs cfg xs :
+  r_sigmode cfg = SigVerify ->
+  let s := run_segments segs init_state in
+  let st := snd (fst (run_steps cfg (fst s, restart cfg (snd s)) xs)) in
+  forall id e l, In (id, e) (entries st) -> e_list e = Some l -> l_sig_ok l = true /\ l_parse_ok l = true.
+Proof.
+  intros Hm s st id e l Hin Hl. pose proof (reachable_segments_inv segs cfg xs) as [He _].
+  fold s in He. fold st in He. rewrite Forall_forall in He. destruct (He _ Hin) as [_ Hok].
+  destruct (Hok l Hl) as [Hp Hs]. auto.
+Qed.
+
+(* non-vacuity, and the situation the adoption check repairs: a list whose signer is unknown is accepted on
+   disk under verify_log; after a restart under verify it is not in force (the strict handshake is refused);
+   after a restart under verify_log again it is *)
+Definition unknown_signer_list : crl :=
+  {| l_issuer := 1; l_serials := [501%Z]; l_signer := 7; l_sig_ok := true; l_parse_ok := true |}.
+Definition cert_103 : cert := {| c_issuer := 1; c_serial := 103; c_cdps := [(1%N, true)]; c_chain := [1%N; 9%N] |}.
+Definition cfg_disk (m : sigmode) : rcfg := {| r_storage := Disk; r_sigmode := m; r_fetch := Active; r_strict := true |}.
+Definition seg_log : rcfg * list rstep := (cfg_disk SigVerifyLog, [SServe 1 (Serve unknown_signer_list); SHandshake cert_103; SServe 1 Down]).
+Lemma reconfiguration_example :
+  snd (run_steps (cfg_disk SigVerifyLog) (fst (run_segments [seg_log] init_state), restart (cfg_disk SigVerifyLog) (snd (run_segments [seg_log] init_state))) [SHandshake cert_103]) = [Some VAccept] /\
+  snd (run_steps (cfg_disk SigVerify) (fst (run_segments [seg_log] init_state), restart (cfg_disk SigVerify) (snd (run_segments [seg_log] init_state))) [SHandshake cert_103]) = [Some VError].
+Proof. split; vm_compute; reflexivity. Qed.
 
 (* ---------------------------------------------------------------- C12: crash images of the disk *)
 (* the atomic file-system actions of one intake on disk storage, in order *)
